@@ -350,6 +350,15 @@ fn check(case: &Case, st: &mut Stats) -> Result<(), String> {
                     }
                     subs_checked = subs.len();
                 }
+                // at quiescence every queued block has been handed to storage (or is already durable)
+                {
+                    let es = engine.st.lock().unwrap();
+                    let durable_next = es.blocks.keys().next_back().map(|x| x + 1).unwrap_or(es.first);
+                    let handed_next = es.submissions.iter().filter(|s| s.incarnation == es.incarnation).map(|s| s.number + 1).max().unwrap_or(0).max(durable_next);
+                    if handed_next < qn {
+                        return Err(format!("{what}: blocks up to {} are queued but storage was only handed blocks up to {}", qn - 1, handed_next.wrapping_sub(1)));
+                    }
+                }
                 // every queued block can be read back and never changes; it is one of the verified candidates
                 for n in qf.max(pf)..qn {
                     let got = node.mgr.get_block(&node.life.ctx, BlockNumber(n)).await.map_err(|e| format!("{what}: get_block({n}) failed although {qf}..{qn} is reported as available: {e:?}"))?;
